@@ -753,6 +753,12 @@ impl Model {
                     }
                 }
             }
+            // a don't-care an earlier sequence of this stream left open (where the cursor is after
+            // DECRC in the pending-wrap column / after `CSI r`, which tab stops a width change leaves)
+            // decides what everything after it does: nothing later in the stream is compared
+            if i > 0 && !self.dc.all && (self.dc.cursor_x_alt.is_some() || self.dc.cursor_home_alt || self.dc.cursor_pos || self.dc.tabstops || self.dc.dectcem_alt.is_some()) {
+                self.dc.mark_all("a don't-care left open by an earlier sequence of the same stream");
+            }
             self.d6_narrow = i + 1 == ev.len();
             self.apply(e);
         }
